@@ -27,16 +27,24 @@ from props import wirelib as WL
 
 POOLS = {"txn": ("pt", "bt"), "spool": ("ps", "bs"), "suser": ("pu", "bu")}
 WINDOW_MS = 150
-PREAMBLE = "From PV Require Import Pause.Model.\nFrom Coq Require Import List. Import ListNotations."
+PREAMBLE = "From PV Require Import Pause.Model Pause.ReloadModel.\nFrom Coq Require Import List. Import ListNotations."
 
 
-def toml():
-    def pool(b, mode, umode=None):
-        u = {"username": "u", "password": "pw", "pool_size": 6}
+def toml(removed=(), sizes=None):
+    """removed: pool kinds left out of the file; sizes: {kind: pool_size} (a changed size re-creates that pool)"""
+    sizes = sizes or {}
+
+    def pool(b, mode, umode, size):
+        u = {"username": "u", "password": "pw", "pool_size": size}
         if umode:
             u["pool_mode"] = umode
         return {"opts": {"pool_mode": mode}, "users": [u], "shards": [{"database": "d", "servers": [[b, "primary"]]}]}
-    return WL.make_toml(pools={"pt": pool("bt", "transaction"), "ps": pool("bs", "session"), "pu": pool("bu", "transaction", "session")})
+    spec = {"txn": ("transaction", None), "spool": ("session", None), "suser": ("transaction", "session")}
+    pools = {}
+    for k, (pname, b) in POOLS.items():
+        if k not in removed:
+            pools[pname] = pool(b, spec[k][0], spec[k][1], sizes.get(k, 6))
+    return WL.make_toml(pools=pools)
 
 
 def session_mode(kind):
@@ -57,14 +65,17 @@ class Script:
         self.stmts = []
         self.admin = []                   # [{"label", "sql", "pools"}]
         self.nadm = 0
+        self.removed = set()              # pool kinds currently not in the configuration
+        self.sizes = {}
 
     # -- helpers
     def _mi(self, c):
         k = self.cl[c]["kind"]
         return self.idx[k].setdefault(c, len(self.idx[k]))
 
-    def _ev(self, kind, s):
-        self.model[kind].append(s)
+    def _ev(self, kind, s, raw=False):
+        """append a step of Pause.ReloadModel for this pool (gate steps are wrapped in [Base])"""
+        self.model[kind].append(s if raw else ("Base (%s)" % s if " " in s else "Base %s" % s))
         return len(self.model[kind]) - 1
 
     def connect(self, c, kind):
@@ -73,6 +84,33 @@ class Script:
 
     def can_send(self, c):
         return self.cl[c]["held"] is None
+
+    def reload(self, removed=None, sizes=None):
+        """rewrite the configuration file and RELOAD through the admin client"""
+        removed = set(self.removed if removed is None else removed)
+        sizes = dict(self.sizes if sizes is None else sizes)
+        label = "adm%d" % self.nadm
+        self.nadm += 1
+        self.steps += [{"op": "write_config", "toml": toml(removed, sizes)},
+                       {"op": "send", "c": "adm", "msgs": [{"t": "Q", "sql": "RELOAD"}]},
+                       {"op": "recv", "c": "adm", "until": "Z", "timeout_ms": 3000, "label": label}]
+        self.admin.append({"label": label, "sql": "RELOAD", "verb": "RELOAD", "kinds": []})
+        for k in POOLS:
+            if k in removed and k not in self.removed:
+                self._ev(k, "ReloadRemove", raw=True); self.paused[k] = False       # from_config resumes the pool it drops
+                for c, st in self.cl.items():
+                    if st["kind"] == k and st["held"] is not None and st["held"] >= 0:
+                        rec = self.stmts[st["held"]]
+                        rec["pos_after"] = self._ev(k, "CWake %d" % self._mi(c))
+                        rec["released_by"] = label
+                        rec["released_by_removal"] = True      # past the gate, then the second lookup fails: error, session ends
+                        self.steps.append({"op": "recv", "c": c, "until": "Z", "timeout_ms": 3000, "label": rec["tag"] + ":after"})
+                        st["held"] = -1
+            elif k not in removed and k in self.removed:
+                self._ev(k, "ReloadFresh", raw=True)                                 # added again: fresh flag and Notify
+            elif k not in removed and sizes.get(k) != self.sizes.get(k):
+                self._ev(k, "ReloadShared", raw=True)                                # replaced: shares the pause cell
+        self.removed, self.sizes = removed, sizes
 
     def stmt(self, c, what):
         """what: plain | ext | begin | in | commit"""
@@ -90,9 +128,17 @@ class Script:
         else:
             msgs = [{"t": "Q", "sql": sql}]
         rec = {"tag": tag, "c": c, "kind": kind, "what": what, "needs_checkout": needs, "paused_at_send": self.paused[kind],
-               "expect_held": needs and self.paused[kind], "pos": None, "pos_after": None, "released_by": None}
+               "expect_held": needs and self.paused[kind], "pos": None, "pos_after": None, "released_by": None, "nopool": False}
         gated = needs and not (self.mutant == "session_arrival_not_gated" and session_mode(kind))
         m = self._mi(c)
+        if needs and kind in self.removed:
+            # the session's pool is gone: its lookup fails, it is told so and ends; the model refuses the CReg
+            rec.update(nopool=True, expect_held=False, prefix=list(self.model[kind]), m=m)
+            self.steps.append({"op": "send", "c": c, "msgs": msgs})
+            self.steps.append({"op": "recv", "c": c, "until": "EZ", "timeout_ms": 3000, "label": tag + ":window"})
+            st["held"] = -1                  # dead: no further statements
+            self.stmts.append(rec)
+            return rec
         if gated:
             self._ev(kind, "CReg %d" % m); self._ev(kind, "CLoad %d" % m)
             rec["pos"] = self._ev(kind, "CDecide %d" % m)
@@ -129,7 +175,7 @@ class Script:
         sql = verb if kind is None else "%s %s,u" % (verb, POOLS[kind][0])
         label = "adm%d" % self.nadm
         self.nadm += 1
-        kinds = list(POOLS) if kind is None else [kind]
+        kinds = [k for k in POOLS if k not in self.removed] if kind is None else [kind]
         self.steps += [{"op": "send", "c": "adm", "msgs": [{"t": "Q", "sql": send_sql or sql}]},
                        {"op": "recv", "c": "adm", "until": "Z", "timeout_ms": 3000, "label": label}]
         self.admin.append({"label": label, "sql": sql, "verb": verb, "kinds": kinds})
@@ -140,7 +186,7 @@ class Script:
                 self._ev(k, "AStore"); self._ev(k, "ANotify"); self.paused[k] = False
         if verb == "RESUME":
             for c, st in self.cl.items():
-                if st["held"] is not None and st["kind"] in kinds:
+                if st["held"] is not None and st["held"] >= 0 and st["kind"] in kinds:
                     rec = self.stmts[st["held"]]
                     rec["pos_after"] = self._ev(st["kind"], "CWake %d" % self._mi(c))
                     rec["released_by"] = label
@@ -208,6 +254,27 @@ def build_all(rng, nrandom, mutant=None):
         s.admin_cmd("RESUME", kind); s.still_held_window("c1"); s.admin_cmd("RESUME", None)
         s = S("extended-protocol arrival while paused, session holder with extended protocol [%s]" % kind)
         s.connect("c0", kind); s.connect("c1", kind); s.stmt("c1", "ext"); s.admin_cmd("PAUSE", None); s.stmt("c0", "ext"); s.stmt("c1", "ext"); s.admin_cmd("RESUME", None)
+    for kind in POOLS:
+        o = other(kind)
+        s = S("pool removed by a RELOAD and added again by another: PAUSE db,user holds the old session and a new one, RESUME releases [%s]" % kind)
+        s.connect("c0", kind); s.reload(removed={kind}); s.reload(removed=set()); s.admin_cmd("PAUSE", kind)
+        s.stmt("c0", "plain"); s.connect("c1", kind); s.stmt("c1", "ext"); s.admin_cmd("RESUME", kind); s.stmt("c0", "plain")
+        s = S("removed, other reloads in between, added again, replaced: global PAUSE holds the old session [%s]" % kind)
+        s.connect("c0", kind); s.connect("c1", o); s.reload(removed={kind}); s.reload(removed={kind}, sizes={o: 7}); s.stmt("c1", "plain")
+        s.reload(removed=set(), sizes={o: 7}); s.reload(removed=set(), sizes={o: 7, kind: 5}); s.admin_cmd("PAUSE", None)
+        s.stmt("c0", "begin"); s.stmt("c1", "plain"); s.admin_cmd("RESUME", None); s.stmt("c0", "commit")
+        s = S("old session that had finished a transaction before its pool was removed and added again is held by PAUSE [%s]" % kind)
+        s.connect("c0", kind); s.stmt("c0", "plain")
+        if session_mode(kind):
+            s.connect("c2", kind)            # a session client keeps its server: use a second session without one as the held party
+        s.reload(removed={kind}); s.reload(removed=set()); s.admin_cmd("PAUSE", kind)
+        s.stmt("c2" if session_mode(kind) else "c0", "plain"); s.stmt("c0", "plain") if session_mode(kind) else None
+        s.admin_cmd("RESUME", kind)
+        s = S("pool removed and not added again: the old session is told 'No pool configured', it is not held; other pools unaffected [%s]" % kind)
+        s.connect("c0", kind); s.connect("c1", o); s.admin_cmd("PAUSE", None); s.reload(removed={kind})
+        s.stmt("c0", "plain"); s.stmt("c1", "plain"); s.admin_cmd("RESUME", None)
+        s = S("paused pool removed while a session waits: the session is released at once [%s]" % kind)
+        s.connect("c0", kind); s.admin_cmd("PAUSE", kind); s.stmt("c0", "plain"); s.reload(removed={kind})
     for i in range(nrandom):
         out.append(random_script(rng, i, mutant))
     return out
@@ -282,7 +349,8 @@ def observe(meta, res):
 
         def answered(r):
             return bool(r) and r.get("outcome") == "ok" and any(f.get("t") == "Z" for f in r["frames"])
-        obs.append({"tag": s["tag"], "backend": be[0]["who"] if be else None, "backend_seq": be[0]["seq"] if be else None,
+        errs = [json.dumps(f) for r in (w, w2, a) if r for f in r["frames"] if f.get("t") == "E"]
+        obs.append({"tag": s["tag"], "error": errs[0] if errs else None, "backend": be[0]["who"] if be else None, "backend_seq": be[0]["seq"] if be else None,
                     "window": w.get("outcome") if w else None, "window2": w2.get("outcome") if w2 else None,
                     "answered_in_window": answered(w) or answered(w2), "answered_after": answered(a),
                     "answer_seq": (w["seq"] if answered(w) else w2["seq"] if answered(w2) else a["seq"] if answered(a) else None)})
@@ -298,6 +366,12 @@ def monitor(meta, res):
         if adm[a["label"]]["ack"] is None or a["verb"] not in " ".join(adm[a["label"]]["reply"]):
             bad.append("harness: admin `%s` was not acknowledged: %s" % (a["sql"], adm[a["label"]]["reply"]))
     for s, o in zip(meta["stmts"], obs):
+        if s.get("nopool"):
+            if o["backend_seq"] is not None:
+                bad.append("(w-iv) %s: the session's pool %s is no longer configured, yet its statement reached backend %s" % (s["tag"], POOLS[s["kind"]][0], o["backend"]))
+            elif not (o["error"] and "No pool configured" in o["error"]):
+                bad.append("(w-iv) %s: the session's pool %s is no longer configured: it must be told so, not held (window %s, error %s)" % (s["tag"], POOLS[s["kind"]][0], o["window"], o["error"]))
+            continue
         if s["needs_checkout"] and s["paused_at_send"]:
             rel = adm.get(s["released_by"]) if s["released_by"] else None
             rs = rel["sent"] if rel else None
@@ -306,7 +380,11 @@ def monitor(meta, res):
                            % (s["tag"], s["what"], s["c"], POOLS[s["kind"]][0], o["backend"]))
             elif o["answered_in_window"]:
                 bad.append("(w-i) %s: answered while the pool was paused" % s["tag"])
-            if rel is not None and not (o["backend_seq"] is not None and o["answered_after"]):
+            if rel is not None and s.get("released_by_removal"):
+                if not (o["answered_after"] and o["error"] and "No pool configured" in o["error"] and o["backend_seq"] is None):
+                    bad.append("(w-ii) %s: held by PAUSE; the RELOAD that removed its pool must release it into the 'No pool configured' error (answered %s, error %s, backend %s)"
+                               % (s["tag"], o["answered_after"], o["error"], o["backend"]))
+            elif rel is not None and not (o["backend_seq"] is not None and o["answered_after"]):
                 bad.append("(w-ii) %s: held by PAUSE, but after `%s` it %s" % (s["tag"], [a["sql"] for a in meta["admin"] if a["label"] == s["released_by"]][0],
                                                                           "never reached a backend" if o["backend_seq"] is None else "was not answered"))
         else:
@@ -317,23 +395,36 @@ def monitor(meta, res):
     return bad, obs, adm
 
 
-def model_codes(metas, name="c16_wire"):
+def model_codes(metas, name="c16_wire", fn="rtrace_codes"):
     cases, idx = [], []
     for i, m in enumerate(metas):
         for k in POOLS:
             if m["model"][k]:
-                cases.append("(trace_codes %d [%s])" % (max(1, m["nclients"][k]), "; ".join(m["model"][k]))); idx.append((i, k))
+                cases.append("(%s %d [%s])" % (fn, max(1, m["nclients"][k]), "; ".join(m["model"][k]))); idx.append((i, k, None))
+        for j, st in enumerate(m["stmts"]):
+            if st.get("nopool"):
+                cases.append("(rtrace_codes %d [%s])" % (max(1, m["nclients"][st["kind"]]), "; ".join(st["prefix"] + ["Base (CReg %d)" % st["m"]]))); idx.append((i, st["kind"], j))
     vals = vlib.coq_eval(name, PREAMBLE, cases, shard=400)
     out = [dict() for _ in metas]
-    for (i, k), v in zip(idx, vals):
-        out[i][k] = vlib.parse_coq(v)
+    for (i, k, j), v in zip(idx, vals):
+        if j is None:
+            out[i][k] = vlib.parse_coq(v)
+        else:
+            out[i][("nopool", j)] = vlib.parse_coq(v)
     return out
 
 
 def compare(meta, obs, codes, index_of):
     """model verdict (blocked / past the gate) at each statement's CDecide and CWake vs the observation"""
     diffs = []
-    for s, o in zip(meta["stmts"], obs):
+    for j, (s, o) in enumerate(zip(meta["stmts"], obs)):
+        if s.get("nopool"):
+            tr = codes.get(("nopool", j), [None])
+            refused = tr[-1] == [] and all(r for r in tr[:-1])
+            told = bool(o["error"]) and "No pool configured" in o["error"] and o["backend_seq"] is None
+            if refused != told:
+                diffs.append("%s: model %s the lookup of the session's pool, observed %s" % (s["tag"], "refuses" if refused else "accepts", "the error reply" if told else "no error reply"))
+            continue
         tr = codes.get(s["kind"], [])
         m = index_of[s["kind"]][s["c"]]
         observed_held = (o["backend_seq"] is None or not o["answered_in_window"]) and o["window"] == "timeout"
@@ -441,6 +532,19 @@ def selftest(run, wire, scripts, results):
     if not pick or caught != len(pick):
         ok = False
         run.broken.append("wire self-test (a): mutated model (session arrival not gated) escaped on %d of %d scenarios" % (len(pick) - caught, len(pick)))
+    # (a') model mutant of the reload layer: the session waits on the pool object it resolved earlier (F36);
+    #      on every remove / re-add / PAUSE scenario the stale model must disagree with what pgcat does
+    #      (not the "removed and not added again" family: there the old code ends in the same error reply)
+    f36 = [(s, r) for s, r in zip(scripts, results) if "added again" in s.name and "not added again" not in s.name and not r.get("harness_error")]
+    codes = model_codes([s.meta() for s, _ in f36], "c16_wire_stale", fn="rtrace_codes_stale")
+    caught36 = 0
+    for (s, r), cd in zip(f36, codes):
+        obs, _ = observe(s.meta(), r)
+        if compare(s.meta(), obs, cd, s.idx):
+            caught36 += 1
+    if not f36 or caught36 != len(f36):
+        ok = False
+        run.broken.append("wire self-test (a'): the stale-lookup model (F36) escaped on %d of %d remove/re-add scenarios" % (len(f36) - caught36, len(f36)))
     # (b) harness mutant
     flagged = 0
     muts = []
@@ -463,7 +567,7 @@ def selftest(run, wire, scripts, results):
     if flagged != len(muts):
         ok = False
         run.broken.append("wire self-test (b): a session-mode arrival served while the script's pool was 'paused' was not flagged (%d/%d)" % (flagged, len(muts)))
-    run.cov["wire_selftest"] = {"model_mutant_scenarios": len(pick), "model_mutant_caught": caught, "harness_mutant_scenarios": len(muts), "harness_mutant_flagged": flagged, "ok": ok}
+    run.cov["wire_selftest"] = {"model_mutant_scenarios": len(pick), "model_mutant_caught": caught, "stale_lookup_model_scenarios": len(f36), "stale_lookup_model_caught": caught36, "harness_mutant_scenarios": len(muts), "harness_mutant_flagged": flagged, "ok": ok}
     return ok
 
 
